@@ -20,7 +20,7 @@ import (
 type CCase struct {
 	Chain []PluginSpec `json:"chain"`
 	Kind  string       `json:"kind"` // tcp | tcpmux | stcp
-	End   string       `json:"end"`  // close | drop
+	End   string       `json:"end"`  // close | drop | relogin (the session is replaced by a login with its run id)
 	Users int          `json:"users"`
 	Scope bool         `json:"scope"` // server checks credentials of work connections (NewWorkConns scope): an edited key must be what is checked
 	HB    bool         `json:"hb"`    // heartbeatTimeout 2 s: refused heartbeats must not keep the session alive, accepted ones must
@@ -29,7 +29,7 @@ type CCase struct {
 
 func genC(t *rapid.T) CCase {
 	c := CCase{Chain: genChain(t), Kind: rapid.SampledFrom([]string{"tcp", "tcp", "tcpmux", "stcp"}).Draw(t, "kind"),
-		End: rapid.SampledFrom([]string{"close", "drop"}).Draw(t, "end"), Users: rapid.IntRange(1, 2).Draw(t, "users"), Scope: rapid.Bool().Draw(t, "scope"),
+		End: rapid.SampledFrom([]string{"close", "drop", "relogin"}).Draw(t, "end"), Users: rapid.IntRange(1, 2).Draw(t, "users"), Scope: rapid.Bool().Draw(t, "scope"),
 		Extra: rapid.SampledFrom([]int{0, 0, 2, 3, 5}).Draw(t, "extra"), HB: rapid.IntRange(0, 2).Draw(t, "hb") == 0}
 	// calls that go wrong at Login end the script early: keep most chains login-friendly
 	if rapid.IntRange(0, 3).Draw(t, "loginfriendly") != 0 {
@@ -301,7 +301,7 @@ func runC(c CCase) error {
 			plain = false
 		}
 	}
-	if plain && c.End == "drop" {
+	if plain && c.End != "close" {
 		for k := 0; k < c.Extra; k++ {
 			n := fmt.Sprintf("extra-%d", k)
 			if r, e := sc.NewProxy(&msg.NewProxy{ProxyName: n, ProxyType: "stcp", Sk: "sk"}, 5*time.Second); e == nil && r.Error == "" {
@@ -313,6 +313,27 @@ func runC(c CCase) error {
 	if c.End == "close" {
 		_ = sc.CloseProxy(finalName)
 		_ = sc.Sync(3 * time.Second)
+	} else if c.End == "relogin" {
+		// the session is replaced: a second login with its run id. Only when the plugins leave logins alone;
+		// otherwise (or when that login fails) the session is dropped instead.
+		loginPlain := true
+		for _, p := range c.Chain {
+			if supports(p, "Login") && p.Outcome["Login"] != "accept" {
+				loginPlain = false
+			}
+		}
+		replaced := false
+		if loginPlain {
+			sc.StopAuto()
+			if sc2, e := fx.ConnectCommon(fx.ScriptedCommon(s), "usr", sc.RunID, 0, nil); e == nil {
+				defer sc2.Close()
+				replaced = true
+				fx.AddLabel("call_sites", "session-replaced-by-relogin", 1)
+			}
+		}
+		if !replaced {
+			sc.Close()
+		}
 	} else {
 		sc.Close()
 	}
